@@ -101,12 +101,12 @@ def time_from_serialnumber_with_microseconds(serialnumber):
 
 
 def time_from_serialnumber(serialnumber):
-    at_hours = (serialnumber + MICROSECOND) * 24
-    hours = math.floor(at_hours)
-    at_mins = (at_hours - hours) * 60
-    mins = math.floor(at_mins)
-    secs = (at_mins - mins) * 60
-    return hours % 24, mins, int(round(secs - 1.1E-6, 0))
+    # round to the nearest second first, so that 59.6 seconds carries into
+    # the minute (and hour) instead of being reported as second 60
+    at_secs = (serialnumber - math.floor(serialnumber)) * 86400
+    mins, secs = divmod(int(round(at_secs - 1E-7, 0)) % 86400, 60)
+    hours, mins = divmod(mins, 60)
+    return hours, mins, secs
 
 
 def is_leap_year(year):
